@@ -45,6 +45,21 @@ def handleF : List Sexp → Sexp
       .list [.atom "check", encCheck (fnTypeCheck name st), .atom "ret", (fnReturnType name st).enc, .atom "callerr",
              (match fnCallTypeError name dy with | none => .atom "none" | some e => .atom e.name)]
     | _, _ => app "err" [.atom "decode"]
+  | [.atom "pattern", k, .atom form, .atom n, comps] =>
+    match Kind.dec k, n.toNat? with
+    | some k, some n =>
+      let tuple := form == "tuple"
+      let dyn : Option TErr := match comps with
+        | .atom "noniter" => some .wrongArgument
+        | .list cs => patternDyn tuple n (cs.map fun | .atom "scalar" => Comp.scalar | .atom s => Comp.parts (s.toNat?.getD 0) | _ => Comp.scalar)
+        | _ => none
+      .list [.atom "check", encCheck (patternCheck k tuple n), .atom "dyn", (match dyn with | none => .atom "none" | some e => .atom e.name)]
+    | _, _ => app "err" [.atom "decode"]
+  | [.atom "cvcheck", .list (.atom "fams" :: fams), .list (.atom "statics" :: statics), .str base, .list idx] =>
+    let fs : List (String × Nat) := fams.filterMap fun | .list [.str b, .atom n] => n.toNat?.map (fun k => (b, k)) | _ => none
+    let ss : List String := statics.filterMap fun | .str s => some s | _ => none
+    let ix : List (Option String) := idx.map fun | .list [.atom "lit", .str f] => some f | _ => none
+    if compoundDeclared fs ss base ix then app "ok" [] else app "err" [.atom "UndeclaredVariable"]
   | [.atom "expr", e] =>
     match (PExp.dec e : Option (PExp Float)) with
     | some e => .list [.atom "tc", boolAtom e.typeCheck, .atom "type", e.typeOf.enc, .atom "eval", encEval e.eval]
@@ -64,7 +79,7 @@ def kindClass : Kind → Kind
 
 def oracle : List Sexp → Sexp
   | [.atom "sound", .atom tc, .atom tr, .atom flag] =>
-    if tc == "ok" && typeClass.contains tr && flag != "numeric-conversion" then
+    if tc == "ok" && (typeClass.contains tr || flag == "undeclared-family" || flag == "static-arity-destructure") && flag != "numeric-conversion" then
       app "violation" [.atom ("accepted-then-" ++ tr), .atom flag]
     else app "ok" []
   | [.atom "fn-sound", .atom _name, .list [.atom "check", chk, .atom "ret", _, .atom "callerr", .atom e]] =>
